@@ -257,6 +257,8 @@ SWEEP_PROGS = [
     'r = a if(b)else c\ns = not(a)\nfor i in(j):\n    pass\nt = [i for i in(j)if(k)]\nu = (a)if(b)else(c)\nv = (a)and(b)and(c)\nw = (\n  a\n) + (b)\n',
     'x = [\n     a, b,\n     c]\ny = {\n     k: v,\n     **r}\nz = f(\n      a,\n      *b, k=c)\ndel (\n     p), q\n',
     'def f(\n      a, b=1, *c, d, **e): pass\nclass C(\n        A, B, metaclass=M): pass\nwith (\n      a as b,\n      c): pass\nimport (a)if 0 else b\n'.replace('import (a)if 0 else b\n', 'from m import (\n       a,\n       b as c)\nglobal g, h, i\n'),
+    # positional / starred arguments and keywords interleaved: the children are not in field order
+    'r = f(k=1, *b, x=2, y=3, z=4)\nclass D(k=1, *b, x=2, y=3, z=4): pass\ng(*a, k=1, *b, j=2, **c, m=3)\nh(a, k=1, *b, j=2)\n',
 ]
 
 
@@ -306,6 +308,8 @@ def stage_slice_sweep(ctx: Ctx):
                         jobs += [(path, 'del', field, i), (path, 'ins', field, i), (path, 'rep', field, i)]
             if isinstance(f.a, (ast.expr, ast.pattern)):
                 jobs += [(path, 'unpar', None, None), (path, 'par', None, None)]
+            if isinstance(f.a, (ast.Name, ast.Constant)) and isinstance(getattr(f.a, 'ctx', ast.Load()), ast.Load) and f.parent and not isinstance(f.parent.a, (ast.JoinedStr, ast.FormattedValue)):
+                jobs += [(path, 'grow', None, None), (path, 'shrink', None, None)]
         for path, how, field, i in jobs:
             for schedule in ('warm', 'cold'):
                 root = fst.FST(src, 'exec')
@@ -324,6 +328,10 @@ def stage_slice_sweep(ctx: Ctx):
                     elif how == 'rep':
                         elt = getattr(f, field)[(i + 1) % len(getattr(f.a, field))].copy()
                         f.put_slice(elt, i, i + 1, field, one=True)
+                    elif how == 'grow':
+                        f.replace('grown_' + f.src if isinstance(f.a, ast.Name) else '100000' + f.src if isinstance(f.a.value, int) and f.a.value is not True and f.a.value is not False else 'grown_name')
+                    elif how == 'shrink':
+                        f.replace('q')
                     elif how == 'unpar':
                         if not f.unpar():
                             continue
